@@ -52,6 +52,8 @@ def numerals(ctx):
 
 def gen(ctx):
     rng = ctx.rng
+    for _src in G.corner_programs():
+        yield Case("CMP", "%s - -" % G.hx(_src), tags=("corner-grid",))
     for d in numerals(ctx):
         yield Case("CMP", "%s - -" % G.hx(T_OPERAND % d), tags=("operand", d))
         yield Case("CMP", "%s - -" % G.hx(T_DEFINITION % d), tags=("definition", d))
